@@ -23,3 +23,29 @@ func VerifReaderReceive(e *actor.Engine, stream DRPCRemote_ReceiveStream) error 
 	r := newStreamReader(&Remote{engine: e})
 	return r.Receive(stream)
 }
+
+// VerifWriter is a real stream writer that is registered and has a running inbox but never dials:
+// Start only starts the inbox.  Invoke runs the real streamWriter.Invoke under a recover, because on a
+// real node it runs on the writer's inbox goroutine, where a panic ends the process.
+type VerifWriter struct {
+	*streamWriter
+	Panicked func(v any)
+}
+
+func (w *VerifWriter) Start() { w.inbox.Start(w) }
+
+func (w *VerifWriter) Invoke(msgs []actor.Envelope) {
+	defer func() {
+		if v := recover(); v != nil && w.Panicked != nil {
+			w.Panicked(v)
+		}
+	}()
+	w.streamWriter.Invoke(msgs)
+}
+
+func VerifNewRunningWriter(e *actor.Engine, addr string, stream DRPCRemote_ReceiveStream, conn net.Conn, panicked func(any)) *VerifWriter {
+	w := newStreamWriter(e, nil, addr, nil, 0).(*streamWriter)
+	w.stream = stream
+	w.rawconn = conn
+	return &VerifWriter{streamWriter: w, Panicked: panicked}
+}
